@@ -1,7 +1,7 @@
 ---------------------------- MODULE OutboundTrace ----------------------------
 (* Trace validation of real executions of Connection::{enqueue_call, send_call, send_reply,
    send_error, flush} against the property-level specification Outbound (C02, C17 outbound).
-   Events: reset, op{kind,h,len,bad}, write{docs,tail}, ret{cls}, end. *)
+   Events: reset, op{kind,h,len,bad}, write{docs,tail}, ret{cls}, retq{cls}, end. *)
 EXTENDS Outbound, Json, IOUtils, TLC
 
 Rec == ndJsonDeserialize(IOEnv.TRACE)
@@ -14,7 +14,8 @@ TInit == l = 1 /\ pend = <<>> /\ maxb = 0 /\ cur = NoOp /\ wrote = FALSE
 TReset == IsEv("reset") /\ pend' = <<>> /\ maxb' = Rec[l].MAXB /\ cur' = NoOp /\ wrote' = FALSE
 TOp == IsEv("op") /\ Begin(Rec[l].kind, [h |-> Rec[l].h, len |-> Rec[l].len], Rec[l].bad)
 TWrite == IsEv("write") /\ Write(Rec[l].docs, Rec[l].tail)
-TRet == /\ IsEv("ret")
+\* (`retq': a return logged without cursor values - the calls of a chain, while the chain borrows the connection)
+TRet == /\ (IsEv("ret") \/ IsEv("retq"))
         /\ LET c == Rec[l].cls IN
            CASE c = "ok" -> RetOk
              [] c = "overflow" -> RetOverflow
